@@ -18,13 +18,17 @@ from xv import c20_regmachine as rm
 ID = "C20"
 LEVEL = "exploration"
 RULE = ("a case = (ordered move list (kind, source register, destination register, width), designated free "
-        "registers); exhaustive: every non-empty ordered destination subset of N registers of one kind x every "
-        "source map into those N registers plus one outside register x free-register set {none, own kind, other "
-        "kind, both} x width {32, 64}; the same with `zero` as extra source and (repeatable) destination; every "
-        "pair of a 2-register int graph and a 2-register float graph interleaved; plus random graphs over up to 8 "
-        "registers per kind (long cycles, several cycles, trees into cycles, j_/fj_ registers, odd widths). "
-        "Non-trivial = the pass returned normally and at least one move is not a self-move (something had to be "
-        "emitted); distinct = distinct (moves, free) tuples")
+        "registers); exhaustive classes: E = every non-empty ordered destination subset of N registers of one kind "
+        "x every source map into those N registers plus one outside register x free-register set {none, int, float, "
+        "both} x width mode {all 32, all 64, two alternations per source register} (N=3 quick, N=4 thorough; int and "
+        "float); Z = the same idea with `zero` as extra source and as repeatable destination (N=2 quick, N=3 "
+        "thorough); M = every pair of a 2-register int graph and a 2-register float graph in three interleavings; "
+        "D = ten directed shapes (4- and 5-cycles, two cycles, cycle + tree + fan-out, tree root next to a cycle, "
+        "self-moved / x0 roots) in every order of the move list; R = random graphs over up to 8 destinations per "
+        "kind (permutation cores, trees, fan-out, self-moves, x0, j_/fj_ registers, 0-2 free registers per kind, "
+        "occasionally unsupported widths). Non-trivial = the pass returned normally, the final state was judged "
+        "correct and at least one move is a real move (not a self-move, not into x0); distinct = distinct "
+        "(moves, free) tuples (hashed)")
 LEVEL_TEXT = ("Every move graph of the stated bounded universe (exhaustive for N registers per kind) and a random "
               "sample of larger graphs is lowered by the real pass and the emitted code executed on an independent "
               "register machine; held = on every explored graph the final register file equals the simultaneous "
@@ -51,7 +55,6 @@ JOB_TIMEOUT = {"quick": 600, "thorough": 3600}
 INT_REGS = ["s1", "s2", "s3", "s4", "s5", "s6", "s7", "s8"]
 FLOAT_REGS = ["fs1", "fs2", "fs3", "fs4", "fs5", "fs6", "fs7", "fs8"]
 OUTSIDE = {"int": "a5", "float": "fa5"}
-FREE = {"int": ["s10", "s11"], "float": ["fs10", "fs11"]}
 
 PASS_CPU_BUDGET_S = 2.0
 
@@ -493,15 +496,16 @@ def _run_case_raw(moves, free, counters=None) -> CaseResult:
                 wrong_regs = {p for _i, p in wrong_dst}
                 res.wrong_regs = wrong_regs
                 res.clobbered = set(clobbered)
-                res.final_of = {p: final.get(p) for p in clobbered}
+                res.final_of = {p: final.get(p) for p in list(clobbered) + list(wrong_regs)}
                 res.init_of = init
                 for kind in ("int", "float"):
                     wk = {p for p in wrong_regs if ref.kind_of(p) == kind}
                     ck = {p for p in clobbered if ref.kind_of(p) == kind}
                     if wk or ck:
-                        entry = classify_kind(ref, kind, init, final, wk, ck, res, tag)
-                        res.problems.append(entry)
-                        res.state_problem[kind] = (entry, wk, ck)
+                        entries, rest_w, rest_c = classify_kind(ref, kind, init, final, wk, ck, res, tag)
+                        res.problems.extend(entries)
+                        if rest_w or rest_c:       # the last entry is the unexplained remainder (generic key)
+                            res.state_problem[kind] = (entries[-1], rest_w, rest_c)
             if res.problems:
                 break
         if res.problems:
@@ -530,38 +534,42 @@ def classify_kind(ref: Ref, kind, init, final, wrong, clob, res, tag):
     members = {n for c in cycles for n in c}
     no_free = not ref.has_free(kind)
     in_cycle_vals = {init[n] for n in members}
-    # --- model 1: int cycle of length >= 3, no scratch: the xor-swap chain rotates it the wrong way round
-    if kind == "int" and wrong and not clob and no_free and "xor" in res.mnemonics:
-        bad = [c for c in cycles if any(n in wrong for n in c)]
-        ok = bool(bad) and wrong <= {n for c in bad for n in c}
-        for c in bad:
-            if len(c) < 3:
-                ok = False
-            # c[i] <- c[i+1] is wanted; the inverse rotation leaves c[i+1] holding the initial value of c[i]
-            for i, n in enumerate(c):
-                if getf(c[(i + 1) % len(c)]) != geti(n):
-                    ok = False
-        if ok:
-            return K_XOR, desc + f" cycle lengths {[len(c) for c in bad]}"
+    # --- model 1: int cycle of length >= 3, no scratch: the xor-swap chain rotates it the wrong way round.
+    #     Cycles are independent of each other (and of everything else), so the cycles that match the model are
+    #     peeled off and the remaining wrong registers are classified on their own.
+    found = []
+    if kind == "int" and wrong and no_free and "xor" in res.mnemonics:
+        peeled = []
+        for c in cycles:
+            if len(c) >= 3 and any(n in wrong for n in c) and \
+                    all(getf(c[(i + 1) % len(c)]) == geti(n) for i, n in enumerate(c)):
+                # c[i] <- c[i+1] is wanted; the inverse rotation leaves c[i+1] holding the initial value of c[i]
+                peeled.append(c)
+        if peeled:
+            found.append((K_XOR, desc + f" cycle lengths {[len(c) for c in peeled]}"))
+            wrong = wrong - {n for c in peeled for n in c}
+            if not wrong and not clob:
+                return found, set(), set()
+            desc = (f"[{tag}] {kind}: (besides {len(peeled)} inverse-rotated cycle(s)) wrong destinations "
+                    f"{sorted(pname(p) for p in wrong)} clobbered {sorted(pname(p) for p in clob)} shape={ref.shape()} "
+                    f"free={[f[1] for f in ref.free]}")
     # --- model 2: the pass takes the ROOT of a move tree (a register that is only read) as scratch for a cycle of
     #     the same kind when no free register was designated
     if members and no_free:
         if len(clob) == 1 and not wrong:
             (p,) = clob
             if p in ref.read_only_sources and p != X0 and final.get(p) in in_cycle_vals:
-                return K_ROOT, desc
+                return found + [(K_ROOT, desc)], set(), set()
         if len(wrong) == 1 and not clob:
             (p,) = wrong
             if p in ref.self_moved and p in ref.sources_nonself and final.get(p) in in_cycle_vals:
-                return K_ROOT_SELF, desc
+                return found + [(K_ROOT_SELF, desc)], set(), set()
         if kind == "int" and wrong and not clob and X0 in ref.succ and wrong <= members \
                 and all(getf(p) == 0 for p in wrong) and len(wrong) <= len(cycles):
-            return K_ROOT_ZERO, desc
-    if wrong and clob:
-        return "wrong-destination-value-and-clobbered-register", desc
-    if wrong:
-        return "wrong-destination-value", desc
-    return "clobbered-register", desc
+            return found + [(K_ROOT_ZERO, desc)], set(), set()
+    generic = ("wrong-destination-value-and-clobbered-register" if wrong and clob else
+               "wrong-destination-value" if wrong else "clobbered-register")
+    return found + [(generic, desc)], wrong, clob
 
 
 _ZERO_CRASHES = {"crash:AssertionError:ParallelMovPattern.match_and_rewrite": "crash-AssertionError",
@@ -605,14 +613,17 @@ def rekey_zero_family(ref: Ref, res):
             # scratch to "break" the pseudo cycle (see K_ROOT): it receives the saved value of a pseudo-cycle member
             # (or x0's 0).  Only the int register file is concerned.
             _entry, wrong, clob = res.state_problem["int"]
-            ok = wrong <= pseudo and len(clob) <= 1
-            for p in clob:
-                if not (not ref.has_free("int") and p in ref.read_only_sources and p != X0
+            on_pseudo, rest = wrong & pseudo, wrong - pseudo
+            scratch = list(clob) + list(rest)          # the register taken as scratch: a tree root
+            ok = len(scratch) <= 1
+            for p in scratch:
+                is_root = (p in ref.read_only_sources) if p in clob else (p in ref.self_moved and p in ref.sources_nonself)
+                if not (is_root and not ref.has_free("int") and p != X0
                         and res.final_of.get(p) in ({0} | {res.init_of.get(q) for q in pseudo})):
                     ok = False
             if ok:
-                new = ("wrong-destination" if wrong else "") + ("+" if wrong and clob else "") + \
-                      ("tree-root-taken-as-scratch" if clob else "")
+                new = ("wrong-destination" if on_pseudo else
+                       "tree-root-taken-as-scratch" if clob else "self-moved-tree-root-taken-as-scratch")
         out.append((K_ZERO + new, summ) if new else (key, summ))
     res.problems = out
 
